@@ -88,6 +88,11 @@ pub enum Case {
         #[serde(default)]
         upload_gap_ms: Vec<u16>,
     },
+    /// graceful-shutdown signal while an upload is incomplete; the end of the upload and a later
+    /// request are released together, *after* the signal (mode 0: signal fired in the same
+    /// scheduler turn just before the bytes; 2: 1 ms before; 3: half-way through the gap) or at the
+    /// same virtual instant by an independent timer (mode 1: no claim about the later request)
+    DrainEarly { chunked: bool, drop_body: bool, h_ms: u16, gap_ms: u16, mode: u8, glue: bool, disc_ms: u32 },
 }
 
 fn when() -> impl Strategy<Value = When> {
@@ -160,6 +165,9 @@ fn case_strategy(kind: u8) -> BoxedStrategy<Case> {
                 shutdown_blocks,
                 bodiless,
             })
+            .boxed(),
+        4 => (any::<bool>(), any::<bool>(), prop_oneof![3 => Just(0u16), 2 => 1u16..60], 2u16..300, 0u8..4, any::<bool>(), prop_oneof![Just(0u32), Just(500u32)])
+            .prop_map(|(chunked, drop_body, h_ms, gap_ms, mode, glue, disc_ms)| Case::DrainEarly { chunked, drop_body, h_ms, gap_ms, mode, glue, disc_ms })
             .boxed(),
         _ => (
             0u16..900,
@@ -759,12 +767,88 @@ pub fn run_case(_cfg: &RunCfg, case: &Case) -> Verdict {
             }
             v
         }
+
+        Case::DrainEarly { chunked, drop_body, h_ms, gap_ms, mode, glue, disc_ms } => {
+            let mut input = vec![];
+            let cut;
+            if *chunked {
+                input.extend_from_slice(b"POST /e0 HTTP/1.1\r\nHost: x\r\nTransfer-Encoding: chunked\r\n\r\n64\r\n");
+                input.extend(std::iter::repeat_n(b'u', 100));
+                input.extend_from_slice(b"\r\n");
+                cut = input.len();
+                input.extend_from_slice(b"64\r\n");
+                input.extend(std::iter::repeat_n(b'u', 100));
+                input.extend_from_slice(b"\r\n0\r\n\r\n");
+            } else {
+                input.extend_from_slice(b"POST /e0 HTTP/1.1\r\nHost: x\r\nContent-Length: 200\r\n\r\n");
+                input.extend(std::iter::repeat_n(b'u', 100));
+                cut = input.len();
+                input.extend(std::iter::repeat_n(b'u', 100));
+            }
+            let tail_end = input.len();
+            input.extend_from_slice(b"GET /late HTTP/1.1\r\nHost: x\r\n\r\n");
+            let mut ops = vec![PeerOp::Send(0, cut), PeerOp::Sleep(*gap_ms as u32)];
+            if *glue {
+                ops.push(PeerOp::Send(cut, input.len()));
+            } else {
+                ops.push(PeerOp::Send(cut, tail_end));
+                ops.push(PeerOp::Send(tail_end, input.len()));
+            }
+            ops.push(PeerOp::WaitClose(30_000));
+            ops.push(PeerOp::Eof);
+            let mut p0 = prog(*h_ms, ok_resp(4));
+            if *drop_body {
+                p0.read = ReadProg::DropNow;
+            }
+            let progs = vec![p0, prog(0, ok_resp(4))];
+            let t_tail = *gap_ms as u32;
+            let (sig_ms, sig_at) = match *mode % 4 {
+                0 => (None, Some(cut as u32)),
+                1 => (Some(t_tail), None),
+                2 => (Some(t_tail - 1), None),
+                _ => (Some(t_tail / 2), None),
+            };
+            let cfg = SrvCfg { shutdown_signal_ms: sig_ms, shutdown_signal_at_input: sig_at, disc_timeout_ms: *disc_ms, ..Default::default() };
+            let out = h1engine::run(Scenario::new(cfg, progs, input, ops));
+            let v = Verdict::ok()
+                .nt(*mode % 4 != 1)
+                .class_if(*mode % 4 == 0, "signal-and-bytes-in-one-poll")
+                .class_if(*drop_body, "early-response-body-dropped")
+                .class_if(*chunked, "chunked-upload");
+            let v = match common(v, &out) {
+                Ok(v) => v,
+                Err(v) => return v,
+            };
+            let parsed = httpwire::parse_responses(&out.out, &[false; 3], out.closed());
+            if let Some(e) = &parsed.error {
+                return v.fail_with(format!("wire does not parse: {e}"));
+            }
+            if *mode % 4 != 1 {
+                if let Some(r) = out.reqs.iter().find(|r| r.target.contains("late")) {
+                    return v.fail_with(format!(
+                        "request {} was released by the peer after the graceful-shutdown signal had fired (mode {}) but was started at {} ms",
+                        r.target, mode % 4, r.t_dispatch
+                    ));
+                }
+            }
+            let complete = parsed.responses.iter().filter(|r| r.complete).count();
+            if complete != out.reqs.len() {
+                return v.fail_with(format!("{} requests were dispatched but {complete} complete responses were written", out.reqs.len()));
+            }
+            if out.reqs.is_empty() {
+                return v.fail_with("the upload request, complete-headed long before the signal, was never dispatched".to_string());
+            }
+            if matches!(out.end, ConnEnd::Stalled) {
+                return v.fail_with("connection never completed after the signal".to_string());
+            }
+            v
+        }
     }
 }
 
 pub fn run(cfg: &RunCfg) -> Report {
     let mut rep = Report::new("C06");
-    rep.rule = "cases = (head) client_request_timeout 0/300/3000/1..2000 ms x clock staleness 0..499 ms x first head in 1-4 pieces completing at the exact deadline -3000..+1500 ms (dense at +-3 ms) or never; (keep-alive) Disabled/Os/Timeout 1..5000 ms x handler delay x second and third request arriving at the exact idle deadline -3000..+1500 ms or never, the first request optionally a chunked upload (read or dropped by the handler) whose terminating chunk arrives 0-900 ms after its head; (shutdown) decision by keep-alive expiry / 408 / Connection: close response / response (3-byte or empty body) with unread request body (linger) x client_disconnect_timeout 0/500/2000/1..3000 ms x peer silent or half-closing late x peer that never reads x transport whose shutdown never completes; (drain) graceful-shutdown signal at 0..900 ms against 1-4 requests with handler delays, streaming bodies and arrival gaps; \
+    rep.rule = "cases = (head) client_request_timeout 0/300/3000/1..2000 ms x clock staleness 0..499 ms x first head in 1-4 pieces completing at the exact deadline -3000..+1500 ms (dense at +-3 ms) or never; (keep-alive) Disabled/Os/Timeout 1..5000 ms x handler delay x second and third request arriving at the exact idle deadline -3000..+1500 ms or never, the first request optionally a chunked upload (read or dropped by the handler) whose terminating chunk arrives 0-900 ms after its head; (shutdown) decision by keep-alive expiry / 408 / Connection: close response / response (3-byte or empty body) with unread request body (linger) x client_disconnect_timeout 0/500/2000/1..3000 ms x peer silent or half-closing late x peer that never reads x transport whose shutdown never completes; (drain) graceful-shutdown signal at 0..900 ms against 1-4 requests with handler delays, streaming bodies and arrival gaps; (drain-early) signal while a 200-byte upload (Content-Length or chunked; read or dropped by a handler answering after 0..60 ms) is half received, the rest of the upload and a later request released together (one or two segments) after the signal: in the same scheduler turn (signal fired by the peer just before the bytes), 1 ms later, or half a gap later; or at the same instant by an independent timer (no claim on the later request); \
                 non-trivial = an event within 50 ms of a deadline or a head that never completes, an obstructed shutdown with a timeout configured, or a signal fired while a handler runs with a request queued; distinct by hash of the case"
         .into();
     rep.assumptions = vec![
@@ -779,6 +863,7 @@ pub fn run(cfg: &RunCfg) -> Report {
     explore(&mut rep, cfg, "keep-alive", cfg.cases(300_000, 6_000_000), || case_strategy(1), |c| run_case(cfg, c));
     explore(&mut rep, cfg, "shutdown", cfg.cases(100_000, 2_000_000), || case_strategy(2), |c| run_case(cfg, c));
     explore(&mut rep, cfg, "drain", cfg.cases(300_000, 6_000_000), || case_strategy(3), |c| run_case(cfg, c));
+    explore(&mut rep, cfg, "drain-early", cfg.cases(20_000, 200_000), || case_strategy(4), |c| run_case(cfg, c));
     rep
 }
 
